@@ -64,7 +64,7 @@ func main() {
 		}
 		idx, _ := strconv.Atoi(os.Args[4])
 		r := run.RunJob(run.Job{Prop: os.Args[2], Scenario: os.Args[3], Index: idx, Seed: seed, Tier: os.Args[5]})
-		fmt.Printf("blocks=%d wall=%.1fs inconclusive=%q violations=%d\n", r.Blocks, r.WallS, r.Inconclusive, r.NViolations)
+		fmt.Printf("blocks=%d wall=%.1fs inconclusive=%q violations=%d extra=%v\n", r.Blocks, r.WallS, r.Inconclusive, r.NViolations, r.Extra)
 		for i, v := range r.Violations {
 			if i < 15 {
 				fmt.Printf("  %s %v %s h=%d ops=%v :: %s\n", v.Rule, v.Scope, v.Relation, v.Height, v.Ops, v.Detail)
